@@ -7,7 +7,7 @@ DEFAULT_WEIGHTS = {
     "put_new": 10, "put_same": 3, "put_reser": 2, "put_change": 6, "put_revert": 3, "put_invalid": 3,
     "put_cond": 3, "put_uidconflict": 2, "put_uidchange": 2, "post": 2, "delete": 5, "delete_missing": 1, "delete_cond_stale": 1,
     "mkcol_new": 1, "mkcol_existing": 1, "delete_col": 0.4, "proppatch": 2, "read": 4, "restart": 0.5,
-    "put_missing_col": 0.5, "put_nouid": 0.5,
+    "put_missing_col": 0.5, "put_nouid": 0.5, "put_moved": 0, "put_swap": 0,
 }
 
 # names for C01-class histories: URL-hostile but not URL-structural
@@ -66,12 +66,13 @@ class Driver:
     def body_for(self, name, uid=None, summary=None):
         tok = self.w.new_token()
         ext = W.ext_of(name)
+        big = self.rng.choice([70000, 140000]) if self.rng.random() < 0.04 else 0
         if ext == ".ics":
             uid = uid if uid is not None else self.rng.choice(self.uids)
-            return gen.ical(self.rng, uid, tok, summary=summary), uid, tok
+            return gen.ical(self.rng, uid, tok, summary=summary, big=big), uid, tok
         if ext == ".vcf":
             uid = uid if uid is not None else self.rng.choice(self.uids)
-            return gen.vcard(self.rng, uid, tok), uid, tok
+            return gen.vcard(self.rng, uid, tok, big=big), uid, tok
         return gen.other_file(self.rng, tok), None, tok
 
     def pick_col(self, kinds=None, nonempty=False):
@@ -249,6 +250,39 @@ class Driver:
         name = self.rng.choice(names)
         body, uid, tok = self.body_for(name, uid)
         self.w.put(col.path, name, body, op="put_uidconflict", uid=uid, token=tok)
+        return [col.path]
+
+    def op_put_moved(self):
+        """the body of a deleted member comes back under another name"""
+        col = self.pick_col()
+        if col is None or not getattr(col, "deleted_bodies", None):
+            return None
+        names = [n for n in self.names_for(col.path) if n not in col.members]
+        if not names:
+            return None
+        oldname, body, uid = self.rng.choice(col.deleted_bodies)
+        cand = [n for n in names if W.ext_of(n) == W.ext_of(oldname) and n != oldname]
+        if not cand:
+            return None
+        if uid is not None and uid in {m.uid for m in col.members.values()}:
+            return None
+        self.w.put(col.path, self.rng.choice(cand), body, op="put_moved", uid=uid, token=None)
+        return [col.path]
+
+    def op_put_swap(self):
+        """two members exchange their bodies (only where no UID check applies)"""
+        col = self.pick_col(("addressbook", "plain"), nonempty=True)
+        if col is None:
+            return None
+        cands = [n for n in sorted(col.members) if W.ext_of(n) != ".ics" and col.members[n].served is not None]
+        if len(cands) < 2:
+            return None
+        a, b = self.rng.sample(cands, 2)
+        if W.ext_of(a) != W.ext_of(b):
+            return None
+        ba, bb = col.members[a].served, col.members[b].served
+        self.w.put(col.path, a, bb, op="put_swap", uid=col.members[b].uid, token=None)
+        self.w.put(col.path, b, ba, op="put_swap", uid=col.members[a].uid, token=None)
         return [col.path]
 
     def op_put_nouid(self):
